@@ -15,7 +15,8 @@ func TestC03(t *testing.T) {
 		"(ALU/M ops, loads/stores of all widths at offsets -10..139 around a 96-byte initialised data window so accesses "+
 		"overlap earlier stores partially and straddle image/written/unknown bytes, AMO/lr/sc on aligned slots, forward and "+
 		"backward branches and jal to instruction starts, auipc+jalr incl. bad targets (mid-instruction, odd, outside), "+
-		"CSR ops, fence/ecall/ebreak); lifted by the real front end, run by the real emulator on Overlay(Bytes(image), "+
+		"CSR ops, fence/ecall/ebreak); lifted by the real front end (a fifth of the programs take the whole path of main.go "+
+		"from an ELF file written by an independent writer), run by the real emulator on Overlay(Bytes(image), "+
 		"Sparse) as main.go does, registers pre-populated (mode A) or supplied lazily by a deterministic provider (mode B). "+
 		"After each of <=60 steps: instruction pointer, x1..x31, CSRs, all written bytes and the data window vs an "+
 		"independent interpreter; Step fails iff the pc is not an instruction start; step report (registers/memory read "+
@@ -31,7 +32,8 @@ func TestC03(t *testing.T) {
 		col.Case()
 		p := drawRVProgram(t, 40)
 		lazy := uniformInt(t, 4, "lazy") == 0
-		h, err := newRVHarness(t, p, lazy)
+		viaELF := uniformInt(t, 5, "viaELF") == 0
+		h, err := newRVHarnessVia(t, p, lazy, viaELF)
 		if err != nil {
 			t.Fatalf("cannot build code model of a valid program: %v\n  program %s", err, p)
 		}
@@ -82,6 +84,9 @@ func TestC03(t *testing.T) {
 		}
 		if straddle {
 			col.Class("store-outside-image")
+		}
+		if viaELF {
+			col.Class("loaded-through-ELF-file")
 		}
 		if lazy {
 			col.Class("mode-B-lazy")
